@@ -114,6 +114,22 @@ theorem transform_units :
       dimU (defaultUnits tables r.src .current) + dimU s = dimU (defaultUnits tables r.dst .current) := by
   decide
 
+/-- `transform_scale_exact` (every row of every domain class: texpr, sexpr, fexpr, omegaexpr,
+    jfexpr, jomegaexpr, normfexpr, normomegaexpr): a transform out of the time domain scales the
+    units by exactly `s`, a transform into the (discrete) time domain by exactly `Hz` -- in
+    particular never by `rad/s`: the inverse transforms integrate over `df = d omega / (2 pi)` -/
+theorem transform_scale_exact :
+    ∀ r ∈ transformTable, ∀ s, r.scale = some s →
+      (r.src = .time → s = ⟨0, 0, 0, 0, 0, 0, 1, 0⟩) ∧
+      (r.dst = .time ∨ r.dst = .discreteTime → s = ⟨0, 0, 0, 0, 0, 1, 0, 0⟩) ∧
+      s.radian = 0 := by decide
+
+/-- every frequency-like domain of the property has a scaled way back to the time domain -/
+theorem transform_inverse_rows_present :
+    ∀ d ∈ [Domain.laplace, .fourier, .angularFourier, .frequencyResponse, .angularFrequencyResponse],
+      transformTable.any (fun r => r.src == d && r.dst == .time && r.scale.isSome) = true := by
+  decide
+
 /-- ... "and back": forward and inverse scales cancel -/
 theorem transform_roundtrip :
     ∀ r1 ∈ transformTable, ∀ r2 ∈ transformTable, r1.src = r2.dst → r1.dst = r2.src →
@@ -154,6 +170,10 @@ theorem flag_recip_sets_units : tables.flags.recipSetsUnits = true := by decide
 /-- the omega-domain special cases of `__compat_add__` come after a test on the quantities
     (finding C18-F20, first half, when false) -/
 theorem flag_omega_needs_quantity : tables.flags.omegaNeedsQuantity = true := by decide
+
+/-- `simplify_units` gives equivalent units without a named SI equivalent (Hz*ohm, ohm/s) one
+    canonical form (finding C18-F24 when false) -/
+theorem flag_canon_folds_hertz : tables.flags.canonFoldsHertz = true := by decide
 
 /-! ## 2. `*` and `/`: units multiply, dimensions add, refusals -/
 
@@ -507,6 +527,21 @@ theorem add_accepts_same (c : Cfg) (a x : Opd) (hq : a.q = x.q) (hd : a.dom = x.
         | (simp only [hq, hd]; done)
   · exact ⟨(decide (a.q = x.q) && decide (a.dom = x.dom), .ok (a.dom, a.q)),
       by simp [compatRulesHead], by simp [hq, hd]⟩
+
+/-- trading hertz for inverse seconds never changes the canonical units (code with the Hz fold):
+    `Hz*ohm` and `ohm/s`, `V**2/Hz**2` and `V**2*s**2` pass the units test against each other -/
+theorem canon_fold (hf : T.flags.canonFoldsHertz = true) (u : U) :
+    canon T (foldHz u) = canon T u := by
+  have hd : dimU (foldHz u) = dimU u := by
+    apply dim3_ext <;> simp only [dimU, foldHz] <;> omega
+  have hr : radMode (foldHz u) = radMode u := rfl
+  have hff : foldHz (foldHz u) = foldHz u := by simp [foldHz]
+  unfold canon
+  rw [hd, hr, hf]
+  simp only [if_true, hff]
+
+theorem canon_fold_now (u : U) : canon tables (foldHz u) = canon tables u :=
+  canon_fold tables flag_canon_folds_hertz u
 
 /-- with check_units on, operands whose canonical units differ are refused unless one of them is
     zero or (loose_units) reports `is_undefined` -/
